@@ -222,18 +222,21 @@ func (g *G) genC07(p *Plan) {
 							op.Faults = append(op.Faults, Fault{Kind: "stall", N: g.n(1, 4)})
 						}
 					} else {
-						switch r := g.rng.Intn(10); {
-						case r < 7:
+						switch r := g.rng.Intn(12); {
+						case r < 6:
 							op = Op{K: "mpu-complete", Up: g.rng.Intn(nup), Parts: []PartRef{{N: 1}, {N: 2}, {N: 3}}[:g.n(1, 3)]}
 							if faultyMPU && g.chance(0.6) {
 								op.Faults = []Fault{{Kind: g.pick("eio", "eio", "enospc"), At: g.n(1, 12), N: g.n(0, 10)}}
 							}
-						case r < 8:
+						case r < 7:
 							op = Op{K: "mpu-abort", Up: g.rng.Intn(nup)}
 						case r < 9:
 							op = Op{K: "mpu-lsparts", Up: g.rng.Intn(nup)}
-						default:
+						case r < 11:
 							op = Op{K: "mpu-lsuploads", B: b}
+						default:
+							// read the key the upload will be completed into
+							op = Op{K: "get", B: b, Key: c.LinUploads[g.rng.Intn(nup)][1]}
 						}
 					}
 				} else {
@@ -297,6 +300,25 @@ func (g *G) genC07(p *Plan) {
 				p.Clients[ci] = p.Clients[ci][:10]
 			}
 		}
+	}
+	if nup == 1 && !faultyMPU && len(c.Buckets) == 1 && g.chance(0.3) {
+		// the smallest history around a completion: one client uploads a part
+		// and completes; two others keep reading the key and listing the
+		// uploads - whoever has read the assembled object finds the upload gone
+		uk := c.LinUploads[0][1]
+		watch := func() []Op {
+			var w []Op
+			for i, n := 0, g.n(2, 4); i < n; i++ {
+				w = append(w, Op{K: "get", B: b, Key: uk}, Op{K: g.pick("mpu-lsuploads", "mpu-lsuploads", "mpu-lsparts"), B: b, Up: 0})
+			}
+			return w
+		}
+		p.Clients = [][]Op{
+			{{K: "mpu-part", Up: 0, Part: 1, Body: g.body(8 + g.rng.Intn(100))}, {K: "mpu-complete", Up: 0, Parts: []PartRef{{N: 1}}}, {K: "get", B: b, Key: uk}},
+			watch(), watch(),
+		}
+		c.Policy = []simrt.Policy{{Kind: "coarse", PIO: 0.2}, {Kind: "coarse", PIO: 0.5}, {Kind: "pct", Depth: 2, Len: 300}, {Kind: "pct", Depth: 3, Len: 1500}, g.policy(3)}[g.rng.Intn(5)]
+		return
 	}
 	if churn && len(c.Buckets) == 1 && len(c.LinUploads) == 0 && g.chance(0.5) {
 		// the smallest such history: one version; a batch that names it, a
